@@ -89,6 +89,29 @@ theorem T14_par_tape_sequential_cursor (progs : List (List Bool)) :
 example : (tapeRun [[true, false, true], [true, true], [false], [true]]
     (tapeSeq [[true, false, true], [true, true], [false], [true]])).got = [[0, 1], [2, 3], [], [4]] := by decide
 
+/-- EVERY schedule that lets every job finish — any number of workers, any interleaving — leaves
+the generator advanced by the same amount (the total number of drawing steps) and every job with as
+many answers as it has drawing steps: what the NEXT user of the generator sees after a parallel
+helper has returned does not depend on the schedule. -/
+theorem T14_par_tape_finished_total (progs : List (List Bool)) (sched : List Nat)
+    (hf : Finished progs (tapeRun progs sched)) :
+    (tapeRun progs sched).got.map List.length = progs.map draws ∧
+    (tapeRun progs sched).cursor = (progs.map draws).sum :=
+  tapeRun_finished progs sched hf
+
+/-- the hypothesis of `T14_par_tape_finished_total` is met by the one-worker schedule (non-vacuity,
+for every job list) … -/
+theorem T14_par_tape_sequential_finished (progs : List (List Bool)) :
+    Finished progs (tapeRun progs (tapeSeq progs)) :=
+  tapeSeq_finished progs
+
+/-- … hence any finishing schedule leaves the generator where the plain loop leaves it. -/
+theorem T14_par_tape_finished_same_cursor (progs : List (List Bool)) (sched : List Nat)
+    (hf : Finished progs (tapeRun progs sched)) :
+    (tapeRun progs sched).cursor = (tapeRun progs (tapeSeq progs)).cursor :=
+  (tapeRun_finished progs sched hf).2.trans
+    (tapeRun_finished progs _ (tapeSeq_finished progs)).2.symm
+
 /-- the hypotheses are met by a run that does draw (non-vacuity), and the conclusion is tight. -/
 example : (tapeRun [[true, false, true], [true, true]] [1, 0, 0, 1, 0]).got = [[1, 3], [0, 2]] ∧
     (tapeRun [[true, false, true], [true, true]] [1, 0, 0, 1, 0]).cursor = 4 := by decide
